@@ -123,7 +123,7 @@ for old, new in (("alpha = 0.32 * efun(-0.25 * v_alpha) / 0.25", "alpha = 0.32 *
                  ('gCaL = params[f"{prefix}_gCaL"] * (q**2) * r', 'gCaL = params[f"{prefix}_gCaL"] * (q**2)')):
     B("C04", PO, old, new, "R-C04-eq")
 B("C04", PO, '            f"{prefix}_gK": 5e-3,\n            "eK": -90.0,', '            f"{prefix}_gK": 5e-3,\n            "eK": -80.0,', "R-C04-defaults")
-B("C04", PO, '        n = states[f"{prefix}_n"]\n        gK = params[f"{prefix}_gK"] * (n**4)', '        n = states[f"K_n"]\n        gK = params[f"{prefix}_gK"] * (n**4)', "R-C04-keys")
+B("C04", PO, '        n = states[f"{prefix}_n"]\n\n        gK = params[f"{prefix}_gK"] * (n**4)', '        n = states[f"K_n"]\n\n        gK = params[f"{prefix}_gK"] * (n**4)', "R-C04-keys")
 B("C04", ION, "        tau_s = (1.0 - s_inf) / params[f\"{prefix}_k_minus\"]", "        tau_s = (1.0 + s_inf) / params[f\"{prefix}_k_minus\"]", "R-C04-eq")
 B("C04", ION, "        return g_syn * (post_voltage - params[f\"{prefix}_e_syn\"])", "        return g_syn * (pre_voltage - params[f\"{prefix}_e_syn\"])", "R-C04-eq")
 B("C04", "jaxley/channels/channel.py", "        self._name = new_name\n        self.channel_params", "        self.channel_params", "R-C04-rename")
@@ -278,3 +278,17 @@ B("C20", CO, "    post_cell_inds = post_cell_inds[to_idx]", "    post_cell_inds 
 B("C20", CO, '    pre_rows = pre_cell_view.scope("local").branch(0).comp(0).nodes.copy()', '    pre_rows = pre_cell_view.scope("local").branch(0).comp(1).nodes.copy()', "R-C20-roles")
 B("C20", CO, "    pre.base._append_multiple_synapses(pre.nodes, post.nodes, synapse_type)", "    pre.base._append_multiple_synapses(post.nodes, pre.nodes, synapse_type)", "R-C20-roles")
 P("C20", CO, "    global_post_indices = global_post_indices.reshape((num_post, num_pre)).T.ravel()", '    global_post_indices = global_post_indices.reshape((num_post, num_pre)).ravel(order="F")')
+
+# ---------------------------------------------------------------------------------------- rules that had no breaking variant
+B("C01", CU, "            levels[i] = levels[p] + 1", "            levels[i] = levels[p]", "R-C01-levels")
+B("C01", CU, "            if levels[b] == l:", "            if levels[b] == l + 1:", "R-C01-levels")
+B("C02", SV, "        lowers = lowers.at[idx.mask(sinks_lower)].add(\n            -delta_t * axial_conductances[c2c][lower_inds]",
+  "        lowers = lowers.at[idx.mask(sinks_lower)].add(\n            -0.5 * delta_t * axial_conductances[c2c][lower_inds]", "R-C02-rowsum")
+B("C03", HH, "is_small, y * (1.0 - x / y / 2.0), x_safe / (save_exp(x_safe / y) - 1.0)", "is_small, y * (1.0 - x / y / 2.0), x_safe / (save_exp(x_safe / y) - 1.0) / y", "R-C03-helper")
+B("C04", HH, 'm, h, n = states[f"{prefix}_m"], states[f"{prefix}_h"], states[f"{prefix}_n"]\n        new_m', 'm, h, n = states[f"{prefix}_m"], states[f"{prefix}_h"], states[f"{prefix}_nn"]\n        new_m', "R-C04-keys")
+B("C09", NW, "type_ind = len(syn_names) if is_new_type else syn_names.index(synapse_name)", "type_ind = len(syn_names) - 1 if is_new_type else syn_names.index(synapse_name)", "R-C09-types")
+B("C10", IG, "    module.to_jax()  # Creates `.jaxnodes` from `.nodes` and `.jaxedges` from `.edges`.", "    if module.jaxnodes is None:\n        module.to_jax()", "R-C10-tojax")
+B("C17", TF, "        return self.a * x + self.b\n", "        return self.a * x * x + self.b\n", "R-C17-mono")
+B("C18", CU, "    if len(radiuses) == 1:\n        radiuses = np.tile(radiuses, 2)", "    if len(radiuses) == 1:\n        return lambda loc: radiuses[0] * np.ones_like(loc)", "R-C18-closure")
+B("C18", BASE, "    def _childviews(self) -> List[str]:", "    def __getstate__(self):\n        state = self.__dict__.copy()\n        state.pop('jaxnodes', None)\n        return state\n\n    def _childviews(self) -> List[str]:", "R-C18-protocol")
+P("C18", BASE, "    def _childviews(self) -> List[str]:", "    def __getstate__(self):\n        return self.__dict__\n\n    def __setstate__(self, state):\n        self.__dict__.update(state)\n\n    def _childviews(self) -> List[str]:")
